@@ -6,10 +6,11 @@ pub mod c05;
 pub mod c06;
 pub mod c07;
 pub mod c08;
+pub mod c09;
 
 use crate::engine::Env;
 
-pub const ALL: [&str; 8] = ["C01", "C02", "C03", "C04", "C05", "C06", "C07", "C08"];
+pub const ALL: [&str; 9] = ["C01", "C02", "C03", "C04", "C05", "C06", "C07", "C08", "C09"];
 
 /// run (or, with env.register_only, just register) every sub-check of a property
 pub fn run(id: &str, env: &mut Env) -> bool {
@@ -22,6 +23,7 @@ pub fn run(id: &str, env: &mut Env) -> bool {
         "C06" => c06::run(env),
         "C07" => c07::run(env),
         "C08" => c08::run(env),
+        "C09" => c09::run(env),
         _ => return false,
     }
     true
@@ -38,6 +40,7 @@ pub fn rule(id: &str) -> String {
         "C02" => "Getters weekday()/day_of_year(): complete windows (quick) or all 2^32 days (thorough) against (d+1) mod 7 and d - jan1 + 1; the formatted fields w, ww, q, e..eeeeeeee, D (one format call with a 12-field pattern) on Dec 25..Jan 7 of every year in windows (quick) or of all 11.76M years (thorough), on 400-year cycles around the era and 1970 and at the range ends, against the ISO-8601 week (two formulations), quarter and weekday tables; set_day_of_year for years x N in 0..=367 (windows of years in quick, every year in thorough); plus seeded random days through the full per-field oracle on Date and DateTime. Non-trivial: BC day, day in the first/last 7 days of a year, N in {0,1,59,60,61,365,366,367}, BC or range-end year for the setter.",
         "C07" => "Complete enumeration of all ordered pairs of days inside multi-year windows (a modern window with a leap year, the era boundary, BC leap years), row by row (fixed b, every a), for Date and - with three times of day on both sides - for DateTime; plus seeded random pairs over the whole range (half of them a few months apart with day of month and time of day within +-1 of each other) and random rows. Oracle per pair: antisymmetry of months_since and years_since (all pairs); when the earlier value's day of month is <= 28, the bracket model.add_months(b, n) <= a < model.add_months(b, n+1) on the instants and years == n / 12; along each row monotonicity in a. The model's month arithmetic is used, never the crate's. Non-trivial pair: same year with a day/time borrow, across a leap day, across the era, same date with different time of day. Row cases count their non-trivial pairs by construction.",
         "C08" => "Model-based histories on Time: a start value (boundary-dense time of day, optional offset) followed by up to 12 operations from add_/sub_ x 6 units x u32 counts, Time +/- Time, Time +/- Duration (0 .. 2^64 s), the *Assign forms, the six setters (in and out of range), the six clear_until_*, set_offset, as_offset, Time::from(DateTime) of any era, parse(format(..)); the reference state is (nanoseconds mod 24 h, offset) and after EVERY step as_nanos() < 24 h, as_nanos(), get_offset(), as_hms(), the six local getters and equality with a freshly built Time are compared with it. Single-operation histories are also enumerated from every (97th in quick) second of the day x four sub-second values. Constructors from_hms/from_seconds/from_nanos over boundary-dense u32/u64 arguments accept exactly in-day values. Non-trivial: a step wrapping past midnight in either direction, amount >= 2^63 ns, operands summing to >= 24 h, subtraction below zero, duration >= 24 h, Time from a BC DateTime, set/clear under an offset.",
+        "C09" => "Cases (instant, offset, operation, candidate): the 10 setters and 9 clear_until_* on DateTime with any offset in +-23:59:59 (UTC time of day biased to within |offset| of midnight so that the local date differs from the UTC date; month/year ends, Feb 29 AD and BC, sub-second remainders), the date setters/clears on Date, the time setters/clears on Time; candidates min, min+1, max-1, max, max+1, min-1, the current value, 2^31, 2^32-1, typical wrong guesses, random. Oracle: local-field model (apply offset -> edit exactly that field -> remove offset); valid => Ok, all getters of the result read the edited local fields, offset unchanged, instant = local - offset; invalid => Err(OutOfRange). Target local dates within 2 days of a range end are skipped as unspecified. Non-trivial: local date != UTC date, Feb 29 involved, BC, refused candidate, candidate at max/max+1, Time wrapping under its offset.",
         _ => "",
     }
     .to_string()
